@@ -24,7 +24,7 @@ def run(res, scratch, *, tier, seed, replay):
     res.assumptions += ["real timers: 'never early' and 'no stale fire' are exact (monotonic clock, deadline recorded before the "
                         "call); 'on time' is asserted with a slack of 500 ms",
                         "fire-versus-renew races at lock grain are covered by the design model only (time is not shimmed)"]
-    r = common.tlc_check(scratch, "Deadline", cfg_text=CFG % dict(h=8, ops=3, durs="2, 4"), timeout=900)
+    r = common.tlc_check(scratch, "Deadline", cfg_text=CFG % dict(h=8, ops=3, durs="0, 2, 4"), timeout=900)
     res.add_model("deadline-H8-3ops", r)
     ov = common.make_overlay(scratch, shim=[])
     binary = common.go_build(scratch, "./cmd/deadline", overlay=ov, name="deadline")
@@ -32,7 +32,7 @@ def run(res, scratch, *, tier, seed, replay):
         hs = [json.load(open(replay))["script"]]
     else:
         num = 240 if tier == "quick" else 1500
-        behs, _ = common.tlc_simulate(scratch, "Deadline", cfg_text=CFG % dict(h=10, ops=5, durs="2, 3, 5"), num=num * 2, depth=16, seed=seed)
+        behs, _ = common.tlc_simulate(scratch, "Deadline", cfg_text=CFG % dict(h=10, ops=5, durs="0, 2, 3, 5"), num=num * 2, depth=16, seed=seed)
         rnd = random.Random(seed)
         hs = []
         seen = set()
